@@ -182,7 +182,8 @@ class Report:
             'violations': len(new_violations),
         }
         (VERIF / 'evidence').mkdir(exist_ok=True)
-        (VERIF / 'evidence' / f'{self.prop}.json').write_text(json.dumps(ev, indent=1, default=str) + '\n')
+        name = f'{self.prop}.json' if not getattr(self, 'partial', False) else f'{self.prop}.partial.json'     # --only runs keep the full evidence
+        (VERIF / 'evidence' / name).write_text(json.dumps(ev, indent=1, default=str) + '\n')
         print(f'[{self.prop}/{self.tier}] configs={self.configs} paths={self.paths} obligations={self.discharged}/'
               f'{self.obligations} queries={self.queries} solver={self.solver_s:.1f}s wall={wall:.1f}s '
               f'known={len(self.known_hits)} violations={len(new_violations)} inconclusive={len(self.inconclusive)}')
@@ -231,7 +232,22 @@ def run_pool(fn: Callable[[Any], Dict[str, Any]], items: List[Any], report: Repo
         for it in items:
             report.merge(fn(it))
         return
-    ctx = mp.get_context('fork')
-    with ctx.Pool(min(procs, len(items))) as pool:
+    import multiprocessing.pool
+    fork = mp.get_context('fork')
+
+    class _Proc(fork.Process):           # type: ignore[name-defined,misc]
+        # workers replay counterexamples in child processes of their own (a wrong engine may crash or spin): not daemonic
+        @property
+        def daemon(self) -> bool:
+            return False
+
+        @daemon.setter
+        def daemon(self, value: bool) -> None:
+            pass
+
+    class _Ctx(type(fork)):              # type: ignore[misc]
+        Process = _Proc
+
+    with multiprocessing.pool.Pool(min(procs, len(items)), context=_Ctx()) as pool:
         for part in pool.imap_unordered(fn, items, chunksize=chunksize):
             report.merge(part)
